@@ -205,6 +205,7 @@ def check(model, rep):
     rep.count('dynamics kernel call sites in Arm', n_sites)
     rep.floor('R08.3', 'dynamics kernel call sites in Arm', n_sites, 2)
     r084(model, rep, arm)
+    r085(model, rep, arm)
 
 
 def _strip(e):
@@ -332,3 +333,78 @@ def r084(model, rep, arm):
                'upward acceleration of g)' % txt, line=bn.lineno)
     else:
         rep.unresolved_item('R08.4', '%s:%d' % (fi.module.relpath, bn.lineno), 'base acceleration vector not in a recognised form: %s' % txt[:80])
+
+
+def _signed_terms(e, sign=1):
+    e = _strip(e)
+    if isinstance(e, ast.BinOp) and isinstance(e.op, ast.Add):
+        return _signed_terms(e.left, sign) + _signed_terms(e.right, sign)
+    if isinstance(e, ast.BinOp) and isinstance(e.op, ast.Sub):
+        return _signed_terms(e.left, sign) + _signed_terms(e.right, -sign)
+    return [(sign, e)]
+
+
+def r085(model, rep, arm):
+    """Sibling conformance of the two branches of the backward (force) recursion of Arm.inverseDynamics: the tip link is the
+    general step with the tip wrench in place of the next link's wrench; the inertial and velocity-product terms are the same
+    expression in both branches and carry one link index."""
+    from ..engine.inline import block_env, norm_text
+    rep.rule('R08.5', 'Arm.inverseDynamics backward pass: F_i = Ad(T)^T (next wrench | tip wrench) + G_i Vdot_i - ad(V_i)^T G_i V_i with the '
+                      'same inertial / velocity-product terms in the tip branch and in the general branch, one link index')
+    fi = arm.methods.get('inverseDynamics')
+    loops = [n for n in fi.body() if isinstance(n, ast.For)]
+    back = [lp for lp in loops if isinstance(lp.iter, ast.Call) and len(lp.iter.args) == 3 and norm_text(lp.iter.args[2]) == '-1']
+    if len(back) != 1 or not isinstance(back[0].target, ast.Name):
+        rep.unresolved_item('R08.5', fi.where, 'backward recursion loop not recognised')
+        return
+    lp = back[0]
+    iv = lp.target.id
+    ifs = [n for n in lp.body if isinstance(n, ast.If) and n.orelse]
+    if len(ifs) != 1:
+        rep.unresolved_item('R08.5', fi.where, 'tip / general branches of the backward recursion not recognised')
+        return
+    wp = fi.params[5] if len(fi.params) > 5 else 'end_effector_wrench'
+    per = []
+    for br in (ifs[0].body, ifs[0].orelse):
+        env, stores = block_env(br)
+        st = [(t, v) for (t, v, s_) in stores if isinstance(t, ast.Subscript) and v is not None]
+        if len(st) != 1:
+            rep.unresolved_item('R08.5', '%s:%d' % (fi.module.relpath, ifs[0].lineno), 'a branch of the backward recursion does not store exactly one link wrench')
+            return
+        per.append((st[0][0], _signed_terms(st[0][1])))
+
+    def nt(e):
+        return norm_text(e).replace('.conj().T', '.T')
+    tabs = {norm_text(t.value) for t, _ in per}
+    rep.ob('R08.5', fi, 'both branches store the wrench of link i in the same table', len(tabs) == 1 and all(norm_text(t.slice).strip('()').endswith(',' + iv) or norm_text(t.slice) == iv for t, _ in per),
+           'the two branches store %s' % sorted(norm_text(t) for t, _ in per), line=ifs[0].lineno)
+    ftab = tabs.pop() if len(tabs) == 1 else '?'
+    kinds = []
+    for t, terms in per:
+        prop = [(sg, e) for sg, e in terms if isinstance(e, ast.BinOp) and isinstance(e.op, ast.MatMult) and 'Adjoint' in nt(e.left) and '@' not in nt(e.left).split('Adjoint')[0]
+                and (nt(e.right).startswith(ftab + '[') or nt(e.right) == wp)]
+        rest = sorted((sg, nt(e)) for sg, e in terms if not any(e is p_[1] for p_ in prop))
+        kinds.append((prop, rest))
+    (p_tip, r_tip), (p_gen, r_gen) = kinds
+    # which branch is the tip one: the one that carries the tip wrench
+    if any(nt(e.right).startswith(ftab + '[') for _, e in p_tip):
+        (p_tip, r_tip), (p_gen, r_gen) = (p_gen, r_gen), (p_tip, r_tip)
+    ok_prop = len(p_tip) == 1 and len(p_gen) == 1 and p_tip[0][0] == 1 and p_gen[0][0] == 1 and nt(p_tip[0][1].right) == wp \
+        and nt(p_gen[0][1].right).replace(' ', '') in ('%s[0:6,%s+1]' % (ftab, iv), '%s[:,%s+1]' % (ftab, iv)) \
+        and nt(p_tip[0][1].left).endswith('.T') and nt(p_gen[0][1].left).endswith('.T')
+    rep.ob('R08.5', fi, 'propagation term: Ad(T)^T @ (F[i+1] | tip wrench), added', ok_prop,
+           'tip branch propagates %s, general branch %s' % ([('+' if s_ > 0 else '-') + nt(e)[:70] for s_, e in p_tip], [('+' if s_ > 0 else '-') + nt(e)[:70] for s_, e in p_gen]), line=ifs[0].lineno)
+    rep.ob('R08.5', fi, 'inertial and velocity-product terms identical in both branches', r_tip == r_gen and len(r_tip) == 2,
+           'tip branch: %s ; general branch: %s' % (r_tip, r_gen), line=ifs[0].lineno)
+    want = sorted([(1, 'self._box_spatial_links[%s,:,:]@vel_dot[0:6,%s]' % (iv, iv)), (-1, 'fmr.ad(V[0:6,%s]).T@self._box_spatial_links[%s,:,:]@V[0:6,%s]' % (iv, iv, iv))])
+    # names of the velocity / acceleration tables are locals: compare up to their names
+    import re as _re
+
+    def shape(terms):
+        out = []
+        for sg, t in terms:
+            t2 = _re.sub(r'\b([A-Za-z_]\w*)\[0:6,', lambda m_: ('TAB[0:6,' if m_.group(1) not in ('self',) else m_.group(0)), t)
+            out.append((sg, t2))
+        return sorted(out)
+    ok_form = shape(r_gen) == shape(want)
+    rep.ob('R08.5', fi, '+ G_i @ Vdot_i - ad(V_i)^T @ G_i @ V_i (one link index)', ok_form, 'general branch has %s' % r_gen, line=ifs[0].lineno)
